@@ -335,13 +335,17 @@ func c18Levels(tier string) []core.Level {
 			}
 		}},
 		{Name: "free-running pass under the race detector: 64 goroutines x every pair / triple scenario (sampling, adds detections only)", Race: true, Gen: func(emit func(core.Case)) {
-			for kind := 0; kind < 2; kind++ {
+			kinds := 1 // quick: twig environment; thorough: core environment as well
+			if thorough(tier) {
+				kinds = 2
+			}
+			for kind := 0; kind < kinds; kind++ {
 				for i := 0; i < n; i++ {
 					for j := i; j < n; j++ {
 						emit(core.Case{Fam: "race", N: []int{kind, 64, i, j}})
 					}
 				}
-				for _, t := range triples {
+				for _, t := range triples[:nTriples] {
 					emit(core.Case{Fam: "race", N: append([]int{kind, 64}, t...)})
 				}
 			}
